@@ -50,8 +50,10 @@ def translate(src):
             "Definition gen_is_true (value : option str) : bool :=\n" + term + ".\n")
 
 
-def generate(api):
+def generate(api, force_stub=False):
     try:
+        if force_stub:
+            raise Rs2vError("translation rejected: %s" % force_stub)
         text = HEAD + translate(api.read(REL))
     except (Rs2vError, api.GenError, KeyError, IndexError, TypeError, AttributeError) as e:
         text = HEAD + "(* NOT UNDERSTOOD: %s *)\n" % str(e).replace("*)", "* )").replace("(*", "( *") + STUB
